@@ -33,6 +33,8 @@ fn main() {
         "C14" => props::c14::run(tier),
         "C15" => props::c15::run(tier),
         "C17" => props::c17::run(tier),
+        "C18" if tier == "--cgetline" => props::c18::cgetline_child(),
+        "C18" => props::c18::run(tier),
         "C19" => props::c19::run(tier),
         "C20" => props::c20::run(tier),
         _ => {
